@@ -145,6 +145,7 @@ fn mk_lcs<A: Adapter>(lcs: &[(usize, Vec<(A::F, Option<usize>)>)], labels: &[usi
 pub fn run<A: Adapter>(c: &Case, out: &mut Out)
 where
     Pt<A>: Clone + Ord + core::fmt::Debug,
+    Pf<A>: CanonicalSerialize + CanonicalDeserialize,
 {
     // ---- setup / trim ----
     let pp = A::setup(c);
@@ -544,9 +545,90 @@ where
             _ => out.obs1(&name, "S", "skipped".into()),
         }
     }
+    // ---- C12: canonical serialization of every artefact of this scenario ----
+    if c.has("c12") {
+        ser_obs("pp", &pp, out);
+        ser_obs("ck", &ck, out);
+        ser_obs("vk", &vk, out);
+        for i in 0..n.min(2) {
+            ser_obs(&format!("comm{}", i), comms[i].commitment(), out);
+            ser_obs(&format!("state{}", i), &states[i], out);
+        }
+        for (t, rec) in recs.iter().enumerate().take(3) {
+            if let Some(pf) = &rec.proof { ser_obs(&format!("proof{}", t), pf, out); }
+            if let Some(bp) = &rec.bproof { ser_obs(&format!("bproof{}", t), bp, out); }
+            if let Some(lp) = &rec.lcproof { ser_obs(&format!("lcproof{}", t), lp, out); }
+        }
+        // verification with deserialized key, commitments and proof: same decisions
+        if let Some(rec) = recs.iter().find(|r| r.kind == "single" && r.proof.is_some()) {
+            use ark_serialize::{Compress, Validate};
+            for (tag, compress) in [("c", Compress::Yes), ("u", Compress::No)] {
+                let rt = |bytes: Vec<u8>| bytes;
+                let mut b = vec![]; vk.serialize_with_mode(&mut b, compress).unwrap();
+                let vk2 = VK::<A>::deserialize_with_mode(&rt(b)[..], compress, Validate::Yes);
+                let mut b = vec![]; rec.proof.as_ref().unwrap().serialize_with_mode(&mut b, compress).unwrap();
+                let pf2 = Pf::<A>::deserialize_with_mode(&b[..], compress, Validate::Yes);
+                let cms2: Vec<Option<LabeledCommitment<Cm<A>>>> = rec.sel.iter().map(|i| {
+                    let mut b = vec![]; comms[*i].commitment().serialize_with_mode(&mut b, compress).unwrap();
+                    Cm::<A>::deserialize_with_mode(&b[..], compress, Validate::Yes).ok().map(|x| LabeledCommitment::new(comms[*i].label().clone(), x, comms[*i].degree_bound()))
+                }).collect();
+                if let (Ok(vk2), Ok(pf2), true) = (vk2, pf2, cms2.iter().all(|x| x.is_some())) {
+                    let cms2: Vec<LabeledCommitment<Cm<A>>> = cms2.into_iter().map(|x| x.unwrap()).collect();
+                    let mut s1 = rec.vsponge_before.clone();
+                    let mut r1 = CountingRng::new(rec.check_seed);
+                    let d = guard_any(|| A::PC::check(&vk2, cms2.iter(), &pts[rec.pt], rec.values.clone(), &pf2, &mut s1, Some(&mut r1)));
+                    out.obs1(&format!("deser_check.{}", tag), "S", decision(&d));
+                    let mut bad = rec.values.clone();
+                    bad[0] += A::F::from(1u64);
+                    let mut s2 = rec.vsponge_before.clone();
+                    let mut r2 = CountingRng::new(rec.check_seed);
+                    let d = guard_any(|| A::PC::check(&vk2, cms2.iter(), &pts[rec.pt], bad, &pf2, &mut s2, Some(&mut r2)));
+                    out.obs1(&format!("deser_check_bad.{}", tag), "S", decision(&d));
+                } else {
+                    out.obs1(&format!("deser_check.{}", tag), "S", "deserialization-failed".into());
+                }
+            }
+        }
+    }
     let _ = <Cm<A> as PCCommitment>::empty;
     let _ = <St<A> as PCCommitmentState>::empty;
 }
+
+/// C12 observations of one artefact: bytes in both compression modes (handed to the model), reported size,
+/// re-serialization after deserialization under both validation modes, and deserialization of proper prefixes
+pub fn ser_obs<T: CanonicalSerialize + CanonicalDeserialize>(name: &str, x: &T, out: &mut Out) {
+    use ark_serialize::{Compress, Validate};
+    for (tag, compress) in [("c", Compress::Yes), ("u", Compress::No)] {
+        let mut bytes = vec![];
+        if x.serialize_with_mode(&mut bytes, compress).is_err() { out.obs1(&format!("rt.{}.{}", name, tag), "S", "serialize-error".into()); continue; }
+        out.input(&format!("ser.{}.{}", name, tag), &[hex(&bytes)]);
+        out.obs1(&format!("sz.{}.{}", name, tag), "N", x.serialized_size(compress).to_string());
+        out.obs1(&format!("len.{}.{}", name, tag), "N", bytes.len().to_string());
+        let mut rt = "ok".to_string();
+        for validate in [Validate::Yes, Validate::No] {
+            match catch(|| T::deserialize_with_mode(&bytes[..], compress, validate)) {
+                Some(Ok(y)) => { let mut b2 = vec![]; y.serialize_with_mode(&mut b2, compress).unwrap(); if b2 != bytes { rt = "differs".into(); } }
+                Some(Err(_)) => rt = "deserialize-error".into(),
+                None => rt = "panic".into(),
+            }
+        }
+        out.obs1(&format!("rt.{}.{}", name, tag), "S", rt);
+        // proper prefixes: a deterministic spread of cut points
+        let l = bytes.len();
+        let mut cuts: Vec<usize> = vec![0, 1, 7, 8, 9, l / 4, l / 2, (3 * l) / 4, l.saturating_sub(33), l.saturating_sub(9), l.saturating_sub(2), l.saturating_sub(1)];
+        cuts.retain(|k| *k < l);
+        cuts.sort(); cuts.dedup();
+        let res: Vec<String> = cuts.iter().map(|k| match catch(|| T::deserialize_with_mode(&bytes[..*k], compress, Validate::No)) {
+            Some(Ok(_)) => "ok".to_string(), Some(Err(_)) => "err".to_string(), None => "err".to_string() }).collect();
+        out.input(&format!("cuts.{}.{}", name, tag), &cuts.iter().map(|k| k.to_string()).collect::<Vec<_>>());
+        out.obs(&format!("tr.{}.{}", name, tag), "S", &if res.is_empty() { vec!["-".into()] } else { res });
+    }
+}
+
+fn catch<T>(f: impl FnOnce() -> T) -> Option<T> {
+    std::panic::catch_unwind(std::panic::AssertUnwindSafe(f)).ok()
+}
+
 
 #[allow(dead_code)]
 pub fn roundtrip<T: CanonicalSerialize + CanonicalDeserialize>(x: &T) -> bool {
